@@ -5,7 +5,9 @@ EXPLANATION = (
     "Decides the equality clause of C19 structurally: in PartialEq::eq of BoundingBox and Universal2DBox every "
     "condition that must hold for `true` is a comparison |self.f - other.f| (< or <=) EPS with the absolute value "
     "present (symmetry) and the required coordinates {left,top,width,height} / {xc,yc,angle,aspect,height} are all "
-    "covered by such necessary conditions (fails when any differs by more). Rule R19.1 on MIR path conditions.")
+    "covered by such necessary conditions (fails when any differs by more). Rule R19.1 on MIR path conditions. "
+    "R19.2: dependency-set wiring of the two ltwh <-> universal conversions (each result field reads exactly the "
+    "documented source fields, confidence included) - a necessary condition of the round trip, not its arithmetic.")
 NOT_DECIDED = ["ltwh <-> universal round trip (numeric)", "polygon geometry", "angle normalisation",
                "reflexivity for NaN coordinates"]
 ASSUMPTIONS = ["rustc nightly front end + MIR construction", "f32::abs is the IEEE absolute value"]
@@ -40,7 +42,75 @@ def classify(op, a):
     return None, sym
 
 
+DEPS = {
+    ('<utils::bbox::Universal2DBox as std::convert::From>::from', True): (
+        'utils::bbox::Universal2DBox::Universal2DBox', {
+            'xc': {'left', 'width'}, 'yc': {'top', 'height'}, 'aspect': {'width', 'height'}, 'height': {'height'},
+            'confidence': {'confidence'}}),
+    ('<utils::bbox::BoundingBox as std::convert::TryFrom>::try_from', True): (
+        'utils::bbox::BoundingBox::BoundingBox', {
+            'left': {'xc', 'aspect', 'height'}, 'top': {'yc', 'height'}, 'width': {'aspect', 'height'},
+            'height': {'height'}, 'confidence': {'confidence'}}),
+}
+
+
+def conversions(ctx):
+    """R19.2 dependency-set wiring of the two box conversions: every field of the result depends on exactly the
+    documented fields of the source (a necessary condition of the round trip; formulas themselves are not frozen)"""
+    R = 'R19.2'
+    ctx.rule(R, 'conversion wiring: each result field depends on exactly the documented source fields')
+    n = 0
+    def pick(path, by_ref):
+        bs = ctx.anchor(R, path, multi=True)
+        bs = [x for x in bs if x.locals[1].startswith('&') == by_ref and ('BoundingBox' in x.locals[1] or
+                                                                          'Universal2DBox' in x.locals[1])]
+        if len(bs) != 1:
+            ctx.fail(R, path, 'ANCHOR-MISSING', 'expected one %s conversion %s, found %d' % (
+                'by-reference' if by_ref else 'by-value', path, len(bs)))
+            return None
+        return bs[0]
+
+    for (path, by_ref), (agg, deps) in DEPS.items():
+        b = pick(path, by_ref)
+        if b is None:
+            continue
+        e = ExprBuilder(b).place(0, ())
+        aggs = [x for x in e.walk() if x.kind == 'agg' and x.name == agg]
+        if not aggs:
+            ctx.note(R, '%s does not build its result as a struct literal; wiring clause not armed' % path)
+            # still require confidence to flow
+            n += 1
+            ctx.check(e.has_field('confidence'), R, b, 'confidence-flows', repr(e)[:120],
+                      'the converted box does not carry the confidence of the source box: %r' % e)
+            continue
+        for a in aggs:
+            m = dict(zip(a.extra['fields'], a.args))
+            for f, want in deps.items():
+                got = set()
+                for p in m[f].places():
+                    if p.root == ('param', 1) and p.fields:
+                        got.add(p.fields[0])
+                n += 1
+                ctx.check(got == want, R, b, 'field:%s<-%s' % (f, sorted(want)), 'depends on %s' % sorted(got),
+                          'result field `%s` is computed from source fields %s (expected exactly %s): the '
+                          'conversion round trip cannot return the same box' % (f, sorted(got), sorted(want)))
+    # by-value conversions delegate to the by-reference ones
+    for path, callee in (('<utils::bbox::Universal2DBox as std::convert::From>::from', 'from'),
+                         ('<utils::bbox::BoundingBox as std::convert::TryFrom>::try_from', 'try_from'),
+                         ('utils::bbox::BoundingBox::as_xyaah', 'from')):
+        b = pick(path, False) if '<' in path else ctx.anchor(R, path)
+        if b is None:
+            continue
+        e = ExprBuilder(b).place(0, ())
+        n += 1
+        ok = e.kind == 'call' and (e.has_call(callee) or e.has_call('into')) and e.has_place(root=('param', 1))
+        ctx.check(ok, R, b, 'delegates', repr(e)[:100], 'the by-value conversion does not delegate to the by-reference '
+                  'conversion of its argument: %r' % e)
+    ctx.floor(R, n, 9)
+
+
 def run(ctx):
+    conversions(ctx)
     R = 'R19.1'
     ctx.rule(R, "every necessary condition of eq()==true has the form abs(self.f - other.f) < EPS; required fields covered")
     n = 0
